@@ -37,7 +37,10 @@ to create and run an LSP server instance.
 */
 package lsp
 
-import "encoding/json"
+import (
+	"bytes"
+	"encoding/json"
+)
 
 // JSON-RPC 2.0 message types
 
@@ -62,6 +65,44 @@ type Request struct {
 	ID      interface{}     `json:"id,omitempty"`
 	Method  string          `json:"method"`
 	Params  json.RawMessage `json:"params,omitempty"`
+}
+
+// UnmarshalJSON decodes a request so that its ID can be echoed exactly: a
+// numeric id is kept as a json.Number (its literal text, so integers above
+// 2^53 and fractions are not rounded through float64), a string id as a
+// string, and an id that is present but null as the JSON text null (the
+// message is then a request and is answered with "id": null). An absent id
+// leaves ID nil: the message is a notification.
+func (r *Request) UnmarshalJSON(data []byte) error {
+	var wire struct {
+		JSONRPC string          `json:"jsonrpc"`
+		ID      json.RawMessage `json:"id"`
+		Method  string          `json:"method"`
+		Params  json.RawMessage `json:"params,omitempty"`
+	}
+	err := json.Unmarshal(data, &wire)
+	r.JSONRPC, r.Method, r.Params = wire.JSONRPC, wire.Method, wire.Params
+	r.ID = decodeID(wire.ID)
+	return err
+}
+
+// decodeID decodes the raw JSON text of an id member without losing
+// precision. It returns nil when the member is absent.
+func decodeID(raw json.RawMessage) interface{} {
+	if len(raw) == 0 {
+		return nil
+	}
+	dec := json.NewDecoder(bytes.NewReader(raw))
+	dec.UseNumber()
+	var id interface{}
+	if err := dec.Decode(&id); err != nil {
+		return nil
+	}
+	if id == nil {
+		// Present but null: keep it distinguishable from an absent id
+		return json.RawMessage("null")
+	}
+	return id
 }
 
 // Response represents a JSON-RPC 2.0 response message.
